@@ -616,12 +616,14 @@ def generate(rng, tier):
 # ---------------------------------------------------------------------------------------------------
 
 def run_world(case, per_op=None):
-    """runs the case on real defcon; returns (outs, viols, stats)"""
+    """runs the case on real defcon; returns (outs, viols, stats, world, model lines)"""
     import c08_world as W
+    import c08_model as M
     tmpd = tempfile.mkdtemp(prefix="c08_")
-    outs, viols, stats = [], [], {}
+    outs, viols, stats, lines = [], [], {}, []
     try:
         w = W.World(case, tmpd)
+        ad = M.Adaptor(w)
         for step, op in enumerate(case["ops"]):
             margins_of = None
             try:
@@ -639,9 +641,17 @@ def run_world(case, per_op=None):
             held = bool(w.user_holds)
             snap = w.snapshot(margins_of)
             members = membership_snapshot(w)
-            status, _ = w.do(op)
+            box = {}
+
+            def mid(details, op=op, box=box):
+                box["ctx"] = ad.before(op, details)
+            status, details = w.do(op, mid)
             events = list(w.rec.events)
             late = list(w.late.events)
+            line, mout = ad.after(op, box.get("ctx"), status, details, events)
+            lines.append(line)
+            if line is not M.SKIP:
+                stats["modelled-ops"] = stats.get("modelled-ops", 0) + 1
             name = op_name(op)
             stats["op." + name] = stats.get("op." + name, 0) + 1
             stats["status." + status.split(":")[0]] = stats.get("status." + status.split(":")[0], 0) + 1
@@ -662,15 +672,31 @@ def run_world(case, per_op=None):
             viols.extend(vs)
             if per_op is not None:
                 per_op(w, step, op, status, events, snap, members, held)
-            outs.append((status, events))
+            outs.append(mout)
         stats["origin." + case.get("origin", "memory")] = 1
-        return outs, viols, stats, w
+        return outs, viols, stats, w, lines
     finally:
         shutil.rmtree(tmpd, ignore_errors=True)
 
 
 def run_impl(case):
-    outs, viols, stats, w = run_world(case)
-    out = [[Atom(s.replace(":", "-"))] for s, evs in outs]
+    outs, viols, stats, w, lines = run_world(case)
     nontrivial = stats.get("payload-deliveries", 0) > 0 and stats.get("will-deliveries", 0) > 0
-    return dict(out=out, viol=viols, info=dict(nontrivial=nontrivial, stats=stats))
+    return dict(out=outs, viol=viols, info=dict(nontrivial=nontrivial, stats=stats))
+
+
+_LINES = {}
+
+
+def _key(case):
+    import json
+    return json.dumps(case, sort_keys=True, default=str)
+
+
+def model_lines(case):
+    """the model is started, per operation, from the abstraction of the implementation's pre-state: the lines
+    are produced by running the implementation (cached by `generate`, recomputed for replays and shrinking)"""
+    k = _key(case)
+    if k not in _LINES:
+        _LINES[k] = run_world(case)[4]
+    return _LINES[k]
